@@ -71,7 +71,9 @@ class OtoDriver(Base):
         if n == "ior":
             return ["pairs", "dict"] if distinct else ["pairs"]
         if n == "copy":
-            return ["method", "ctor"]
+            # /twin: the copy is kept untouched while the source lives on; /swap: the history goes on with the copy and
+            # the source is kept untouched (both only observed by the walks)
+            return ["method", "ctor", "method/twin", "ctor/twin", "method/swap", "ctor/swap"]
         return [None]
 
     def form(self, arg, variant):
@@ -118,15 +120,21 @@ class OtoDriver(Base):
             elif n == "clear":
                 tgt.clear()
             elif n == "copy":
-                how = variant or "method"
+                how, _, keep = (variant or "method").partition("/")
                 c = tgt.copy() if how == "method" else copymod.copy(tgt) if how == "copy.copy" else self.cls(tgt)
                 if type(c) is not self.cls or c is tgt:
                     v = [-5]
                 cf = c if op["side"] == "fwd" else c.inv
                 got["also_t"] = [self.observe(cf, None)]
-                c[A(1)] = A(2)
-                c.inv[A(3)] = A(3)
-                c.clear()
+                if keep == "twin":
+                    got["twin"] = cf
+                elif keep == "swap":
+                    got["twin"] = o
+                    o = cf
+                else:
+                    c[A(1)] = A(2)
+                    c.inv[A(3)] = A(3)
+                    c.clear()
             else:
                 raise core.MachineryError("op " + n)
             r = {"e": "ok", "v": v}
